@@ -9,7 +9,10 @@ from vf.core import Sub, Violation, Skip
 from hydrodiy.data import dutils
 
 PROPERTY = "C14"
-RULE = ("Hypothesis-generated irregular series: 2..60 observations (thorough "
+RULE = ("(long-series sub-check: 2e4 .. 1e6 irregular stamps over months to "
+        "decades against a cumulative-integral evaluation of the same "
+        "definition.) " +
+        "Hypothesis-generated irregular series: 2..60 observations (thorough "
         "up to 2000), first stamp = a midnight + 0..7199 s, spacings from "
         "three regimes (uniform 1..4000 s; {0,600,900,1800,3600,5400} s with "
         "duplicates and stamps on period boundaries; {1,59,600,3600,20000} s "
@@ -221,7 +224,102 @@ def oracle(case):
     return {"nt": nt, "labels": sorted(set(labels))}
 
 
+# ---------------------------------------------------------- long series
+def enum_long(tier):
+    sizes = [20000] if tier == "quick" else [20000, 200000, 1000000]
+    for n in sizes:
+        for k, (P, rainfall) in enumerate([(3600, False), (1800, True),
+                                           (1800, False), (3600, True)]):
+            yield {"n": n, "P": P, "rainfall": rainfall, "seed": n + k,
+                   "year": [1975, 2001, 2030, 1999][k],
+                   "unit": UNITS[k % 4]}
+
+
+def long_oracle(case):
+    """Months to decades of irregular data against a vectorised evaluation
+    of the same definition (cumulative integral at the period ends)."""
+    n, P, rainfall = case["n"], case["P"], case["rainfall"]
+    rng = np.random.RandomState(case["seed"])
+    steps = rng.choice([60, 360, 600, 900, 1800, 2700, 3600, 5400, 40000],
+                       size=n - 1,
+                       p=[.2, .3, .2, .1, .1, .04, .03, .02, .01])
+    secs = np.concatenate([[0], np.cumsum(steps)]).astype(np.int64)
+    vals = np.round(rng.gamma(2., 2., size=n), 3)
+    vals[rng.uniform(size=n) < 0.002] = np.nan
+    vals[rng.uniform(size=n) < 0.002] = -1.0
+    maxgap = 7200
+    t0 = pd.Timestamp(year=case["year"], month=3, day=7, hour=5, minute=13)
+    idx = pd.DatetimeIndex(t0.value + secs * 10**9).as_unit(case["unit"])
+    se = pd.Series(vals, index=idx)
+    r = dutils.var2h(se, nbsec_per_period=P, maxgapsec=maxgap,
+                     rainfall=rainfall)
+    ts = t0.value // 10**9 + secs
+    h0 = pd.Timestamp(t0.year, t0.month, t0.day, t0.hour) \
+        + pd.Timedelta(hours=1)
+    hstart = h0.value // 10**9
+    nper = int((ts[-1] - ts[0]) / P)
+    if len(r) != nper or r.index[0] != h0 or \
+            r.index[-1] != h0 + pd.Timedelta(seconds=P * (nper - 1)):
+        raise Violation(f"{len(r)} periods from {r.index[0]} to "
+                        f"{r.index[-1]}, expected {nper} from {h0}")
+    dt = np.diff(ts).astype(np.float64)
+    v1, v2 = vals[:-1], vals[1:]
+    invalid = np.isnan(v1) | np.isnan(v2) | (v1 < 0) | (v2 < 0) | \
+        (dt > maxgap)
+    w1, w2 = np.where(invalid, 0., v1), np.where(invalid, 0., v2)
+    seg = w2 * 1.0 if rainfall else (w1 + w2) / 2 * dt
+    I = np.concatenate([[0.], np.cumsum(seg)])
+    J = np.concatenate([[0.], np.cumsum(np.where(invalid, dt, 0.))])
+
+    def at(t, cum, inside):
+        k = np.clip(np.searchsorted(ts, t, side="right") - 1, 0, n - 2)
+        return cum[k] + inside(k, (t - ts[k]).astype(np.float64))
+
+    def in_I(k, d):
+        if rainfall:
+            return w2[k] * d / dt[k]
+        a = (w2[k] - w1[k]) / dt[k]
+        return w1[k] * d + a * d * d / 2
+
+    def in_J(k, d):
+        return np.where(invalid[k], d, 0.)
+
+    s_ = hstart + P * np.arange(nper, dtype=np.int64)
+    e_ = s_ + P
+    tot = at(e_, I, in_I) - at(s_, I, in_I)
+    bad = at(e_, J, in_J) - at(s_, J, in_J)
+    near = at(e_ + 1, J, in_J) - at(s_ - 1, J, in_J)
+    exp = tot if rainfall else tot / P
+    got = r.values
+    must = (bad > 0) | (e_ > ts[-1])
+    judged = ~must & (near == 0)
+    judged[-1] = False
+    must[-1] = False
+    if np.any(must & ~np.isnan(got)):
+        i = int(np.argmax(must & ~np.isnan(got)))
+        raise Violation(f"n={n}: period {i} overlaps invalid data but "
+                        f"var2h returns {got[i]!r}")
+    if np.any(judged & np.isnan(got)):
+        i = int(np.argmax(judged & np.isnan(got)))
+        raise Violation(f"n={n}: period {i} (of {nper}) is covered by valid "
+                        f"data but var2h returns NaN (P={P}, "
+                        f"rainfall={rainfall})")
+    # cumulative sums of ~n terms: rounding of the reference itself
+    tol = 1e-9 * np.maximum(1., np.abs(exp)) + 4e-16 * I[-1] / \
+        (1 if rainfall else P) * 8
+    err = np.abs(got - exp)
+    if np.any(judged & ~(err <= tol)):
+        i = int(np.argmax(judged & ~(err <= tol)))
+        raise Violation(f"n={n}: period {i} (of {nper}): var2h {got[i]!r}, "
+                        f"exact period {'sum' if rainfall else 'average'} "
+                        f"{exp[i]!r} (P={P}, rainfall={rainfall}, "
+                        f"unit={case['unit']})")
+    return {"nt": True, "labels": [f"n:{n}", f"periods-judged:"
+                                   f"{'>1e4' if judged.sum() > 1e4 else '<=1e4'}"]}
+
+
 SUBS = [
+    Sub("C14.long-series", long_oracle, enumerate=enum_long, shards=(4, 12)),
     Sub("C14.period-average", oracle, strategy=cases, n=(600, 8000),
         shards=(16, 16)),
 ]
